@@ -761,8 +761,11 @@ def _check_mono(case, ctx):
             raise Violation("leak_increased",
                             "leaked power %.12e -> %.12e at iteration %d "
                             "(unfiltered %.3e)" % (l0, l1, i, sc), t)
-        ctx.err("cost_increase", max(0.0, c1 - c0, l1 - l0 if equal else 0.0)
-                / sc, 1e-13)
+        if not (tags["eig_degenerate"] or tags["F_nonorthogonal"]):
+            # fraction of the allowance used (cases showing the symptoms of
+            # the open leig/peig finding are left out of this statistic)
+            ctx.err("increase_over_allowance",
+                    max(0.0, c1 - c0) / (1e-9 * c0 + 1e-13 * sc), 1.0)
     if seq[-1][1] < 0.5 * leak0:
         ctx.label("leak_halved")
 
